@@ -210,6 +210,27 @@ void STUB(_ZN5phosg13string_printfB5cxx11EPKcz)(uint8_t* sret, uint8_t* fmt, ...
 }
 #endif
 
+#ifndef VERIF_NATIVE_REAL
+/* phosg::fgets(FILE*) (Filesystem.cc; property C14's subject, built on std::deque<std::string> of 256-byte blocks) is cut out
+ * of the generated C and replaced by its contract: the next line including its '\n' (or the rest of the file; "" at end of
+ * file) as a std::string.  The result is built directly in libstdc++'s layout {char* p; size_t size; union {char buf[16];
+ * size_t capacity;}} with operator new from the runtime model for lines longer than 15 characters.  The real build runs the
+ * real phosg::fgets over the ::fgets stub above. */
+uint8_t* X__Znwm(uint64_t n);
+void STUB(_ZN5phosg5fgetsB5cxx11EP8_IO_FILE)(uint8_t* sret, uint8_t* f) {
+  FOREIGN(f, 0);
+  uint8_t line[40]; uint32_t k = 0;
+  while (IN_FILE(fpos_)) { ASSERT(k < sizeof(line) - 1, "BOUND: header line length"); uint8_t c = file_[fpos_++]; line[k++] = c; if (c == '\n') break; }
+  if (k == 0) feof_ = 1;
+  uint8_t* d = sret + 16;
+  if (k > 15) { d = X__Znwm((uint64_t)k + 1); *(uint64_t*)(sret + 16) = k; }
+  for (uint32_t i = 0; i < k; i++) d[i] = line[i];
+  d[k] = 0;
+  *(uint8_t**)sret = d;
+  *(uint64_t*)(sret + 8) = k;
+}
+#endif
+
 static void file_reset(void) { flen_ = 0; flen_min_ = 0; fpos_ = 0; feof_ = 0; }
 static void file_rewind(uint64_t new_len) { flen_ = new_len; flen_min_ = 0; fpos_ = 0; feof_ = 0; }
 /* symbolic length with a concrete lower bound */
